@@ -70,7 +70,7 @@ type fatalInfo struct {
 	Line      string   // "fatal error: stack overflow", "panic: …", "SIGSEGV…"
 	Kind      string   // stack-overflow | concurrent-map-writes | … | uncaught-panic | unknown
 	Frames    []string // functions of the crashing goroutine, innermost first (args stripped)
-	Repeating []string // functions that occur >= 3 times among the innermost frames (sorted)
+	Repeating []string // functions that occur >= 2 times among the innermost frames (sorted)
 	Innermost string   // innermost risor function
 	Marker    string   // one of the worker's own markers (watchdog, memory guard) or ""
 }
@@ -149,14 +149,14 @@ func parseFatal(stderr string) fatalInfo {
 	}
 	count := map[string]int{}
 	top := fi.Frames
-	if len(top) > 60 {
-		top = top[:60]
+	if len(top) > 48 {
+		top = top[:48] // the runtime prints the innermost 50 frames; the last ones may be cut mid-cycle
 	}
 	for _, f := range top {
 		count[f]++
 	}
 	for f, n := range count {
-		if n >= 3 {
+		if n >= 2 {
 			fi.Repeating = append(fi.Repeating, f)
 		}
 	}
@@ -210,11 +210,39 @@ func recursionClass(rep []string) string {
 	return "no-repeating-frames"
 }
 
-// collapse drops closures' suffixes (".func1") and duplicates, keeps order.
+// dropReceiver turns pkg.(*T).m and pkg.T.m into pkg.m: the same natively recursive operation on
+// lists and on maps is one defect class (which of the two repeats depends on the shape of the cycle).
+func dropReceiver(f string) string {
+	i := strings.Index(f, ".(")
+	if i < 0 {
+		return f
+	}
+	j := strings.Index(f[i:], ").")
+	if j < 0 {
+		return f
+	}
+	return f[:i] + "." + f[i+j+2:]
+}
+
+// receiverOf returns pkg.T of a method pkg.(*T).m ("" for plain functions).
+func receiverOf(f string) string {
+	i := strings.Index(f, ".(")
+	if i < 0 {
+		return ""
+	}
+	j := strings.Index(f[i:], ").")
+	if j < 0 {
+		return ""
+	}
+	return f[:i] + "." + strings.Trim(f[i+2:i+j], "*")
+}
+
+// collapse drops closures' suffixes (".func1"), receivers and duplicates; sorted.
 func collapse(fs []string) []string {
 	seen := map[string]bool{}
 	var out []string
 	for _, f := range fs {
+		f = dropReceiver(f)
 		for {
 			i := strings.LastIndex(f, ".func")
 			if i < 0 {
@@ -231,6 +259,7 @@ func collapse(fs []string) []string {
 			out = append(out, f)
 		}
 	}
+	sort.Strings(out)
 	if len(out) > 6 {
 		out = append(out[:6], "…")
 	}
